@@ -12,6 +12,12 @@ NOTES = ("Every check: bin/check <ID> --tier quick|thorough. It regenerates work
          "known_findings.json lists genuine defects (fixed: entries suppress nothing).")
 MC = "model_checking"
 CHECKS = {
+    "C04": dict(category=MC, design_ref="DESIGN.md 5 C04",
+                technique="TLC exhaustive enumeration of Layout.Expected over the complete key space + exhaustive comparison of the real engine against the emitted table",
+                text="the space 65536 codes x 11 modifier patterns x numpad x 2 layouts is finite and enumerated completely on both sides: TLC (2.9M states) "
+                     "checks the statement's consequences on Layout.Expected and emits the table; the harness presses every point on the real engine and "
+                     "compares text, emptiness and session flag (exhaustive: true)",
+                note="key-name -> layout-entry naming convention (bin/gen.py) transcribed from riti.h names; two layout files; TLC JSON modules, harness executor trusted"),
     "C12": dict(category=MC, design_ref="DESIGN.md 5 C12",
                 technique="TLC bounded model checking of FixedCompose (PropKeySet) + replay of every TLC behaviour through the real engine",
                 text="TLC enumerates all key/backspace histories to depth 3 (quick) / 4 (thorough) over a class alphabet x 16 helper settings, checks the "
@@ -24,5 +30,11 @@ CHECKS = {
                      "checks conservation for every reachable text and exact placement for every text matching the syllable grammar; every history ending in "
                      "the reph key is replayed in the real engine and the pre-edit text compared after each event",
                 note="placement clause only for grammar-matching texts (statement: 'orthographically well-formed'); bounded depth; TLC, harness executor, rustc trusted"),
+    "C14": dict(category=MC, design_ref="DESIGN.md 5 C14",
+                technique="TLC product-machine model checking (typewriter order/option on vs Unicode order/option off) + paired replay of every generated word in two real contexts",
+                text="TLC builds every word of <= 2 syllables from the syllable grammar (9 onsets quick / 16 thorough, all ten vowel signs, both second halves of AU, "
+                     "chandrabindu, independent vowel, punctuation, digit) x 16 helper settings and checks OldOrderEquiv and the waiting-sign clauses on the transcript; "
+                     "each word is typed both ways into two real contexts and the texts compared after every syllable, plus the waiting-sign clauses on the real engine",
+                note="only grammar-generated words (behaviour on ill-formed key sequences is descriptive); bounded word length; TLC, harness executor trusted"),
 }
 NOT_APPLICABLE = {}
